@@ -1,4 +1,7 @@
 import PvlModel.Lemmas.DateTime
+import PvlModel.Lemmas.OdlZone
+import PvlModel.Lemmas.PdsTime
+import PvlModel.Gen.Tables
 /-!
 # C14 — date and time values keep their type, instant and time-zone meaning
 
@@ -26,9 +29,20 @@ all the back-tracking alternatives of `%H`, `%M`, `%S`.
 
 `C14_datetimeZ_decodes`, `C14_datetime_roundtrip_odl_utc`: the same with a trailing `Z` (UTC).
 
-ODL zone offsets, day-of-year dates, leap seconds and the PDS3 millisecond spelling are decided by the
-generator's independent reading of each spelling against the real decoders and the model
-(`vlib/props/c14.py`); their theorems are open.
+**ODL zone offsets** (`C14_time_offset_decodes`, `C14_time_roundtrip_odl_offset`,
+`C14_datetime_offset_decodes`, `C14_datetime_roundtrip_odl_offset`; `Lemmas/OdlZone.lean`): a time or a
+calendar date-time followed by `+HH`, `-HH`, `+HH:MM`, `-HH:MM` — every offset of whole minutes up to ±12:59,
+which is what `ODLEncoder.encode_time` writes — is read by the ODL decoder at exactly that offset.  This needs
+all of: every date, time and date-time format fails on the whole text (the six day-of-year formats too), the
+lazy scan for the sign passes the two hyphens of a date, the zone designator is read in the regular
+expression's alternative order, and the rest is the time / date-time proved above.
+
+**The PDS3 spelling** (`C14_time_roundtrip_pds`, `C14_datetime_roundtrip_pds`; `Lemmas/PdsTime.lean`):
+`HH:MM[:SS[.mmm]][Z]` with three fraction digits, both settings of `time_trailing_z`, naive or UTC values of
+whole milliseconds.
+
+Day-of-year dates, leap seconds and the refusal branches are decided by the generator's independent reading of
+each spelling against the real decoders and the model (`vlib/props/c14.py`); their theorems are open.
 -/
 namespace Pvl
 open Py Enc
@@ -170,6 +184,151 @@ theorem C14_datetime_roundtrip_odl_utc (c : EncCfg) (hk : c.kind = .odl) (hg : D
   refine ⟨dateT y m d (encodeTimeBase h mi s us ++ [90]), ?_,
     C14_datetimeZ_decodes c.d hg y m d h mi s us hd hv hp⟩
   simp [encodeValue, encodeSimple, encodeTime, hk, encodeDate, dateT]
+
+
+/-- the ODL and PDS3 tables have the shape the zone theorems use (the PVL-family tables carry the
+    leap-second patterns and are not covered) -/
+theorem odlTables_ok : ∀ g ∈ [Gen.odl, Gen.pds], OdlTablesOK g = true := by
+  decide
+
+/-- **C14, ODL zone offsets are read as written**: `HH:MM[:SS[.ffffff]]` followed by `+HH`, `-HH`, `+HH:MM`
+    or `-HH:MM` is decoded by the ODL decoder to the written clock fields at exactly that offset: the text
+    as a whole matches none of the date, time and date-time formats (each of the six time formats is
+    followed through every back-tracking alternative up to the sign), the zone is split off at the first
+    sign, and the rest is the time proved above. -/
+theorem C14_time_offset_decodes (dc : Dec) (hk : dc.kind = .odl) (hg : OdlTablesOK dc.g = true)
+    (h mi s us : Nat) (hv : ValidTime h mi s us) (neg : Bool) (hh mm : Nat) (hh12 : hh ≤ 12) (hmm : mm < 60) :
+    decodeDatetime dc (encodeTimeBase h mi s us ++ (if neg then 45 else 43) :: zoneText hh mm) =
+      .ok (.time h mi s us (some (((hh : Int) * 3600 + (mm : Int) * 60) * (if neg then -1 else 1)))) := by
+  unfold decodeDatetime
+  simp only [hk]
+  exact decodeDatetimeOdl_zoned dc.g hg h mi s us hv neg hh mm hh12 hmm
+
+/-- **C14, times with a zone offset round-trip through the ODL encoder and decoder**: for every clock time
+    and every offset of whole minutes up to ±12:59 (what `ODLEncoder.encode_time` accepts), the text written
+    is read back as the same time at the same offset. -/
+theorem C14_time_roundtrip_odl_offset (c : EncCfg) (hk : c.kind = .odl) (hdk : c.d.kind = .odl)
+    (hg : OdlTablesOK c.d.g = true) (h mi s us : Nat) (hv : ValidTime h mi s us) (off : Int) (h0 : off ≠ 0)
+    (h60 : off.natAbs % 60 = 0) (h12 : off.natAbs / 3600 ≤ 12) :
+    ∃ text, encodeValue c (.time h mi s us (some off)) = .ok text ∧
+      decodeDatetime c.d text = .ok (.time h mi s us (some off)) := by
+  have hmm : off.natAbs % 3600 / 60 < 60 := by omega
+  have hdec := C14_time_offset_decodes c.d hdk hg h mi s us hv (decide (off < 0)) (off.natAbs / 3600)
+    (off.natAbs % 3600 / 60) h12 hmm
+  refine ⟨encodeTimeBase h mi s us ++ (if decide (off < 0) then 45 else 43) ::
+    zoneText (off.natAbs / 3600) (off.natAbs % 3600 / 60), ?_, ?_⟩
+  · have e1 : (off != 0) = true := by simp [h0]
+    have e2 : (off == 0) = false := by simp [h0]
+    have e3 : ¬ (off.natAbs / 3600 > 12) := by omega
+    simp [encodeValue, encodeSimple, encodeTime, hk, e2, h60, e3, zoneText]
+  · rw [hdec]
+    congr 3
+    by_cases hn : off < 0
+    · simp only [hn, decide_true, if_true]; omega
+    · simp only [hn, decide_false]; simp; omega
+
+
+theorem odlDtTables_ok : ∀ g ∈ [Gen.odl, Gen.pds], OdlDtTablesOK g = true := by
+  decide
+
+/-- **C14, ODL date-times with a zone offset are read as written**: none of the four date, six time and
+    twelve date-time formats (six calendar ones followed through every back-tracking alternative, six
+    day-of-year ones failing at the month) converts the whole text; the scan for the zone passes the two
+    hyphens of the date (what follows them is too long to be a zone) and splits at the sign. -/
+theorem C14_datetime_offset_decodes (dc : Dec) (hk : dc.kind = .odl) (hg : OdlDtTablesOK dc.g = true)
+    (y m d h mi s us : Nat) (hd : ValidDate y m d) (hv : ValidTime h mi s us) (neg : Bool) (hh mm : Nat)
+    (hh12 : hh ≤ 12) (hmm : mm < 60) :
+    decodeDatetime dc (dateT y m d (encodeTimeBase h mi s us ++ (if neg then 45 else 43) :: zoneText hh mm)) =
+      .ok (.datetime y m d h mi s us (some (((hh : Int) * 3600 + (mm : Int) * 60) * (if neg then -1 else 1)))) := by
+  unfold decodeDatetime
+  simp only [hk]
+  exact decodeDatetimeOdl_dt_zoned dc.g hg y m d h mi s us hd hv neg hh mm hh12 hmm
+
+/-- **C14, date-times with a zone offset round-trip through the ODL encoder and decoder** -/
+theorem C14_datetime_roundtrip_odl_offset (c : EncCfg) (hk : c.kind = .odl) (hdk : c.d.kind = .odl)
+    (hg : OdlDtTablesOK c.d.g = true) (y m d h mi s us : Nat) (hd : ValidDate y m d) (hv : ValidTime h mi s us)
+    (off : Int) (h0 : off ≠ 0) (h60 : off.natAbs % 60 = 0) (h12 : off.natAbs / 3600 ≤ 12) :
+    ∃ text, encodeValue c (.datetime y m d h mi s us (some off)) = .ok text ∧
+      decodeDatetime c.d text = .ok (.datetime y m d h mi s us (some off)) := by
+  have hmm : off.natAbs % 3600 / 60 < 60 := by omega
+  have hdec := C14_datetime_offset_decodes c.d hdk hg y m d h mi s us hd hv (decide (off < 0))
+    (off.natAbs / 3600) (off.natAbs % 3600 / 60) h12 hmm
+  refine ⟨dateT y m d (encodeTimeBase h mi s us ++ (if decide (off < 0) then 45 else 43) ::
+    zoneText (off.natAbs / 3600) (off.natAbs % 3600 / 60)), ?_, ?_⟩
+  · have e2 : (off == 0) = false := by simp [h0]
+    have e3 : ¬ (off.natAbs / 3600 > 12) := by omega
+    simp [encodeValue, encodeSimple, encodeTime, hk, e2, h60, e3, zoneText, encodeDate, dateT]
+  · rw [hdec]
+    congr 3
+    by_cases hn : off < 0
+    · simp only [hn, decide_true, if_true]; omega
+    · simp only [hn, decide_false]; simp; omega
+
+
+
+theorem encodeTime_pds (c : EncCfg) (hk : c.kind = .pds) (h mi s us : Nat) (hp : us % 1000 = 0) (tz : Option Int)
+    (htz : tz = none ∨ tz = some 0) :
+    encodeTime c h mi s us tz =
+      .ok (if c.timeTrailingZ then pdsTimeBase h mi s us ++ [90] else pdsTimeBase h mi s us) := by
+  have e : (us % 1000 != 0) = false := by simp [hp]
+  have hb : pad h 2 ++ [58] ++ pad mi 2 ++
+      (if (us != 0) = true then [58] ++ pad s 2 ++ [46] ++ pad (us / 1000) 3
+       else if (s != 0) = true then [58] ++ pad s 2 else []) = pdsTimeBase h mi s us := by
+    unfold pdsTimeBase pdsTail
+    split <;> (try split) <;> simp
+  rcases htz with rfl | rfl <;> simp only [encodeTime, hk, e, Bool.false_eq_true, if_false, hb]
+
+/-- **C14, the PDS3 spelling round-trips**: for every clock time of whole milliseconds, naive or UTC, and
+    either setting of `time_trailing_z`, what `PDSLabelEncoder.encode_time` writes — `HH:MM[:SS[.mmm]][Z]` —
+    is read back by the PDS3 decoder as that time in UTC (three fraction digits are taken by `%f`'s
+    three-digit alternative after the longer ones fail, and scaled to microseconds) -/
+theorem C14_time_roundtrip_pds (c : EncCfg) (hk : c.kind = .pds) (hdk : c.d.kind = .pds)
+    (hg : TimeTablesOK6 c.d.g = true) (hutc : c.d.g.defaultUtc = true) (h mi s us : Nat)
+    (hv : ValidTime h mi s us) (hp : us % 1000 = 0) (tz : Option Int) (htz : tz = none ∨ tz = some 0) :
+    ∃ text, encodeValue c (.time h mi s us tz) = .ok text ∧
+      decodeDatetime c.d text = .ok (.time h mi s us (some 0)) := by
+  obtain ⟨h1, h2⟩ := decodeDatetimeBase_time_pds c.d.g hg h mi s us hv hp
+  have hdef : defaultTz c.d.g = some 0 := by simp [defaultTz, hutc]
+  rw [hdef] at h1
+  refine ⟨_, by simpa [encodeValue, encodeSimple] using encodeTime_pds c hk h mi s us hp tz htz, ?_⟩
+  unfold decodeDatetime
+  simp only [hdk]
+  by_cases hz : c.timeTrailingZ = true
+  · simp [hz, h2, hp]
+  · simp [hz, h1, hp]
+
+/-- **C14, PDS3 date-times round-trip** -/
+theorem C14_datetime_roundtrip_pds (c : EncCfg) (hk : c.kind = .pds) (hdk : c.d.kind = .pds)
+    (hg : DtTablesOK c.d.g = true) (hutc : c.d.g.defaultUtc = true) (y m d h mi s us : Nat)
+    (hd : ValidDate y m d) (hv : ValidTime h mi s us) (hp : us % 1000 = 0) (tz : Option Int)
+    (htz : tz = none ∨ tz = some 0) :
+    ∃ text, encodeValue c (.datetime y m d h mi s us tz) = .ok text ∧
+      decodeDatetime c.d text = .ok (.datetime y m d h mi s us (some 0)) := by
+  obtain ⟨h1, h2⟩ := decodeDatetimeBase_datetime_pds c.d.g hg y m d h mi s us hd hv hp
+  have hdef : defaultTz c.d.g = some 0 := by simp [defaultTz, hutc]
+  rw [hdef] at h1
+  by_cases hz : c.timeTrailingZ = true
+  · refine ⟨dateT y m d (pdsTimeBase h mi s us ++ [90]), ?_, ?_⟩
+    · simp [encodeValue, encodeSimple, encodeTime_pds c hk h mi s us hp tz htz, hz, encodeDate, dateT]
+    · unfold decodeDatetime
+      simp [hdk, h2, hp]
+  · refine ⟨dateT y m d (pdsTimeBase h mi s us), ?_, ?_⟩
+    · simp [encodeValue, encodeSimple, encodeTime_pds c hk h mi s us hp tz htz, hz, encodeDate, dateT]
+    · unfold decodeDatetime
+      simp [hdk, h1, hp]
+
+/-- the PDS3 table reads a naive time as UTC -/
+example : Gen.pds.defaultUtc = true := rfl
+
+
+/-- **the order and the zone pattern the model follows are the ones in the source**: `decode_datetime` tries the
+    date formats, then the time formats, then the date-time formats (`decodeDatetimeBase`); the ODL decoder's
+    zone pattern is the regular expression `zoneSplit` / `zoneTail` were written for.  Both are read from
+    `pvl/decoder.py` with `ast` on every run: an edit to either changes the table and this stops checking. -/
+theorem C14_decode_order :
+    Gen.datetimeFormatOrder = ["date_formats", "time_formats", "datetime_formats"] ∧
+    Gen.odlZoneRegex = ["(?P<dt>.+?)(?P<sign>[+-])(?P<hour>0?[0-9]|1[0-2])(?::?", "{_M_frag}", ")?"] ∧
+    Gen.odlMinuteFrag = "(?P<minute>[0-5]\\d)" := by decide
 
 /-- leap day: 29 February exists exactly in leap years (non-vacuity of `ValidDate` at its edge) -/
 example : ValidDate 2000 2 29 ∧ ¬ ValidDate 1900 2 29 ∧ ValidDate 1 1 1 ∧ ValidDate 9999 12 31 := by
